@@ -89,7 +89,7 @@ def run(tier, v):
     vlib.write_ndjson(treq, [
         {"op": "ttl_table", "id": 1, "obs": ttl_obs(tier)},
         {"op": "win_table", "id": 2, "obs": win_obs(tier), "mss": [-1, 0, 1, 2, 64, 255, 256, 536, 1460, 65535], "u16": B16},
-        {"op": "hdr_table", "id": 3, "obs_alpha": OBS_ALPHA, "sig_alpha": SIG_ALPHA, "maxlen": 4 if tier == "thorough" else 3},
+        {"op": "hdr_table", "id": 3, "obs_alpha": OBS_ALPHA, "sig_alpha": SIG_ALPHA, "maxlen": 3},
         {"op": "sw_table", "id": 4, "strs": SW},
         {"op": "score_table", "id": 5},
     ])
@@ -99,7 +99,7 @@ def run(tier, v):
     entries = 0
     nrows = 0
     with open(trace, "w") as f:
-        f.write(json.dumps({"t": "meta", "obs_alpha": OBS_ALPHA, "sig_alpha": SIG_ALPHA, "maxlen": 4 if tier == "thorough" else 3, "u16": B16, "strs": SW}) + "\n")
+        f.write(json.dumps({"t": "meta", "obs_alpha": OBS_ALPHA, "sig_alpha": SIG_ALPHA, "maxlen": 3, "u16": B16, "strs": SW}) + "\n")
         for o in vlib.read_ndjson(tout):
             if "panic" in o:
                 v.violation({"part": "table", "op": o["op"], "observed": "panic: " + o["panic"]})
